@@ -263,9 +263,16 @@ def options(ctx, P, views):
         ci = P.classes.get(cname)
         if ci is None:
             raise AnalysisError("class %s not found" % cname)
-        for x in ast.walk(ci.methods["__init__"]):
-            if isinstance(x, ast.Compare) and isinstance(x.ops[0], ast.NotIn) and unparse(x.left) == "preemption" and isinstance(x.comparators[0], ast.List):
-                for el in x.comparators[0].elts:
+        for x in rules.walk(P, P.view(cname), ci.methods["__init__"]):
+            lst = x.comparators[0] if isinstance(x, ast.Compare) else None
+            if isinstance(lst, ast.Attribute) and unparse(lst.value) == "self":
+                # a class-level table of options, looked up on the instance: the definition nearest in this class's MRO
+                for c_ in P.mro(cname):
+                    if lst.attr in getattr(P, "class_constants", {}).get(c_, {}):
+                        lst = P.class_constants[c_][lst.attr]
+                        break
+            if isinstance(x, ast.Compare) and isinstance(x.ops[0], ast.NotIn) and unparse(x.left) == "preemption" and isinstance(lst, ast.List):
+                for el in lst.elts:
                     if isinstance(el, ast.Constant) and isinstance(el.value, str):
                         validated.add(el.value)
     handled = set()
